@@ -165,21 +165,8 @@ def run_unit(pid, subname, tier, seed, shard, nshards, n_cases, enabled_known, o
         state = {"t_first_fail": None, "last_fail": None, "harness": None, "first_sig": None}
         budget = SHRINK_BUDGET[tier]
 
-        def one(case):
-            rec = _one(case)
-            if rec is not None:
-                # single raise site: Hypothesis identifies a failure by exception type and origin
-                raise Violation(rec["message"], rec["signature"])
-
-        def _one(case):
-            case = normalise(case)
-            h = case_hash(case)
-            if h in fail_cache:
-                state["last_fail"] = fail_cache[h]
-                return fail_cache[h]
-            if state["t_first_fail"] is not None and time.time() - state["t_first_fail"] > budget:
-                return None  # shrink budget exhausted: let the shrinker finish quickly
-            label = None
+        def account(case, h):
+            """count one explored case (evaluations, non-trivial label, sample)"""
             try:
                 label = sub.nontrivial(case)
             except Exception as e:  # noqa: BLE001
@@ -191,7 +178,9 @@ def run_unit(pid, subname, tier, seed, shard, nshards, n_cases, enabled_known, o
                 hashes.add(h[:12])
                 if len(res["samples"]) < MAX_SAMPLES_PER_UNIT:
                     res["samples"].append({"subcheck": subname, "label": label, "case": _trim(case)})
-            out = execute(sub, case)
+
+        def outcome(case, h, out):
+            """turn an execute() outcome into None (continue) or a failure record"""
             if out[0] == "ok":
                 return None
             if out[0] == "inconclusive":
@@ -216,6 +205,26 @@ def run_unit(pid, subname, tier, seed, shard, nshards, n_cases, enabled_known, o
                 state["t_first_fail"] = time.time()
             return rec
 
+        def over_budget():
+            return state["t_first_fail"] is not None and time.time() - state["t_first_fail"] > budget
+
+        def one(case):
+            rec = _one(case)
+            if rec is not None:
+                # single raise site: Hypothesis identifies a failure by exception type and origin
+                raise Violation(rec["message"], rec["signature"])
+
+        def _one(case):
+            case = normalise(case)
+            h = case_hash(case)
+            if h in fail_cache:
+                state["last_fail"] = fail_cache[h]
+                return fail_cache[h]
+            if over_budget():
+                return None  # shrink budget exhausted: let the shrinker finish quickly
+            account(case, h)
+            return outcome(case, h, execute(sub, case))
+
         if sub.cases is not None:
             allc = sub.cases(tier)
             mine = allc[shard::nshards]
@@ -230,7 +239,7 @@ def run_unit(pid, subname, tier, seed, shard, nshards, n_cases, enabled_known, o
         elif sub.machine is not None:
             from tqv.machine import run_machine
 
-            run_machine(sub, one, state, seed * 1000 + shard, n_cases, tier)
+            run_machine(sub, dict(account=account, outcome=outcome, over_budget=over_budget, fail_cache=fail_cache, state=state), seed * 1000 + shard, n_cases, tier)
             if state["last_fail"] is not None:
                 res["failure"] = state["last_fail"]
         else:
